@@ -53,6 +53,15 @@ structure MwFacts where
   returnsResultAndExecErr : Bool
 deriving DecidableEq, Repr
 
+/-- gateway.go, how `New` takes its options (model `Nw`) -/
+structure NewOptsFacts where
+  middlewaresAdd : Bool
+  plannerSets : Bool
+  prioritiesSet : Bool
+  factorySets : Bool
+  handOverAfterOptions : Bool
+deriving DecidableEq, Repr
+
 structure OpSelectFacts where
   singleUsesOnly : Bool
   emptyNameRejected : Bool
